@@ -57,6 +57,7 @@ inductive Err
   | userParams              -- "gate function takes at most one parameters."
   | userNeither             -- "gate is neither function nor operator"
   | unknownGate             -- `get_compact_qobj`: NotImplementedError (unknown name / GLOBALPHASE)
+  | measurement             -- `propagators`: TypeError "Cannot compute the propagator of a measurement operator"
   | fuel                    -- (model only) recursion budget exhausted; never happens with fuel ≥ length
 deriving DecidableEq, Repr
 
@@ -428,6 +429,82 @@ def getGateUnitary (userGates : List (String × UserKind)) (name : String) (cont
     | .fn _ => .error .userParams
     | .oper => .ok (.userOper name)
     | .other => .error .userNeither
+
+/-! ## (f) From the circuit's gate objects to matrix steps: `get_all_qubits`, the GLOBALPHASE name test,
+`_get_gate_unitary` with the user's objects -/
+
+/-- what the evolution reads of a gate object; `A` is the (opaque) type of `arg_value` -/
+structure GateReq (A : Type) where
+  name : String
+  targets : List Nat
+  controls : List Nat
+  /-- `gate.controls is None` -/
+  controlsNone : Bool
+  arg : A
+
+/-- `Gate.get_all_qubits`: `controls + targets` if `controls is not None`, else `targets` -/
+def GateReq.allQubits {A : Type} (r : GateReq A) : List Nat :=
+  if r.controlsNone then r.targets else r.controls ++ r.targets
+
+/-- an entry of `user_gates`: the kind of object, and the operator it stands for — `yield none` is the
+stored operator / the result of `func()`, `yield (some a)` the result of `func(a)`; the operator has `m`
+qubit subsystems and the rows `yield _`.  The user's function is opaque: any function of the argument. -/
+structure UserGate (A α : Type) where
+  name : String
+  kind : UserKind
+  m : Nat
+  yield : Option A → List (List α)
+
+/-- the library side: `gate.get_compact_qobj()` (`none`: NotImplementedError) as (number of qubits, rows),
+and the scalar `np.exp(1j * arg_value)` of GLOBALPHASE -/
+structure Library (A α : Type) where
+  compact : String → A → Option (Nat × List (List α))
+  phase : A → α
+
+/-- one gate object → one matrix step.  The name test for GLOBALPHASE comes first (`_evolve_state*`,
+`propagators`), then `_get_gate_unitary`: the user table shadows the library. -/
+def resolveGate {A : Type} (lib : Library A α) (ug : List (UserGate A α)) (r : GateReq A) : Except Err (Op α) :=
+  if r.name = "GLOBALPHASE" then .ok (.phase (lib.phase r.arg)) else
+  match getGateUnitary (ug.map fun u => (u.name, u.kind)) r.name r.controlsNone with
+  | .error e => .error e
+  | .ok .library =>
+    match lib.compact r.name r.arg with
+    | some (m, U) => .ok (.gate r.allQubits m U)
+    | none => .error .unknownGate
+  | .ok (.userOper n) | .ok (.userCall0 n) =>
+    match ug.find? (fun u => u.name == n) with
+    | some u => .ok (.gate r.allQubits u.m (u.yield none))
+    | none => .error .unknownGate
+  | .ok (.userCall1 n) =>
+    match ug.find? (fun u => u.name == n) with
+    | some u => .ok (.gate r.allQubits u.m (u.yield (some r.arg)))
+    | none => .error .unknownGate
+
+def resolveAll {A : Type} (lib : Library A α) (ug : List (UserGate A α)) : List (GateReq A) → Except Err (List (Op α))
+  | [] => .ok []
+  | r :: rs =>
+    match resolveGate lib ug r, resolveAll lib ug rs with
+    | .ok a, .ok b => .ok (a :: b)
+    | .error e, _ => .error e
+    | _, .error e => .error e
+
+/-! ## (g) `propagators(expand, ignore_measurement)` on a circuit that may contain measurements -/
+
+/-- an element of `QubitCircuit.gates` -/
+inductive Item (α : Type) where
+  | op (o : Op α)
+  | meas
+
+def Item.gate? : Item α → Option (Op α)
+  | .op o => some o
+  | .meas => none
+
+/-- `propagators`: the measurements are filtered out; if there was one and `ignore_measurement` is not
+set, TypeError; then the propagators of the remaining gates -/
+def propagatorsM (o : Ops α) (N : Nat) (expand ignore : Bool) (items : List (Item α)) : Except Err (List (FMat α)) :=
+  let gates := items.filterMap Item.gate?
+  if gates.length < items.length && !ignore then .error .measurement
+  else propagators o N expand gates
 
 /-! ## Exact scalars for the driver: ℤ[ζ₁₆][1/2] with the dyadic exponent kept per number -/
 
